@@ -372,7 +372,7 @@ fn ser_named_type(ty: &OwnedDataModelType, value: &Value, out: &mut Vec<u8>) -> 
                 return Err(Error::SchemaMismatch);
             }
         }
-        OwnedDataModelType::Schema => todo!(),
+        OwnedDataModelType::Schema => return Err(Error::ShouldSupportButDont),
     }
     Ok(())
 }
